@@ -357,6 +357,77 @@ example :
       ([.fm [⟨2, 10⟩, ⟨3, 9⟩] (.ok [⟨3, 9⟩])], .error notFound) := by
   decide
 
+/-! ### The message handed out is the message that was checked -/
+
+/-- **C13_returned_is_checked.**  Against an Action Cache whose answer may change between reads
+(`acs i` = reply to read `i` of this request): the Action Cache is read exactly once; a message is
+handed out (to the caller, or to the slicer of `GetFromComposite`) exactly when the outcome is the
+result (resp. the slicer's outcome on a result); and that message is the reply to that single
+read, the very message the completeness check of this request accepted - the CAS calls of the
+request are the calls of checking it. -/
+theorem C13_returned_is_checked (cfg : Cfg) (acs : Nat → AcReply) (cas : Cas) (composite : Option (Option Code)) :
+    (serve cfg acs cas composite).acReads = 1 ∧
+    ((serve cfg acs cas composite).outcome = .result → ∃ m, (serve cfg acs cas composite).message = some m) ∧
+    ∀ m, (serve cfg acs cas composite).message = some m →
+      acs 0 = .ok m ∧ (getAR cfg (.ok m) cas).2 = .result ∧
+      (serve cfg acs cas composite).calls = (getAR cfg (.ok m) cas).1 := by
+  refine ⟨rfl, ?_, ?_⟩
+  · intro h
+    have hr : (getAR cfg (acs 0) cas).2 = .result := by
+      cases composite with
+      | none => exact h
+      | some e => exact ((C13_composite_is_checked_get cfg (acs 0) cas e).2.1 h).1
+    obtain ⟨ar, _, hac, _⟩ := getAR_result hr
+    refine ⟨ar, ?_⟩
+    simp only [serve]
+    simp only [serve] at h
+    rw [h, hac]
+  · intro m hm
+    simp only [serve] at hm ⊢
+    cases hac : acs 0 with
+    | err c =>
+      rw [hac] at hm
+      split at hm <;> simp_all
+    | ok ar =>
+      rw [hac] at hm
+      split at hm
+      · rename_i ar' hout heq
+        simp only [AcReply.ok.injEq] at heq
+        subst heq
+        simp only [Option.some.injEq] at hm
+        subst hm
+        cases composite with
+        | none => exact ⟨rfl, hout, rfl⟩
+        | some e =>
+          obtain ⟨htr, hres, _, _⟩ := C13_composite_is_checked_get cfg (.ok ar) cas e
+          exact ⟨rfl, (hres hout).1, htr⟩
+      · simp at hm
+
+/-- Consequently whatever is handed out - whatever later reads of the Action Cache would return -
+satisfies the full conclusion of `C13_returned_implies_present` for *that* message. -/
+theorem C13_received_message_complete (cfg : Cfg) (acs : Nat → AcReply) (cas : Cas) (composite : Option (Option Code))
+    (m : AR) (hm : (serve cfg acs cas composite).message = some m) :
+    (∀ d, some (PD.good d) ∈ topDigests m → ReportedPresent (serve cfg acs cas composite).calls d) ∧
+    (∀ od, od ∈ m.dirs → ∃ t blob, od.tree = some (.good t) ∧ Call.get t blob ∈ (serve cfg acs cas composite).calls ∧
+      Clean cfg blob ∧
+      ∀ dir, Ev.dir dir ∈ blob.evs → ∀ d, InDir od dir d → ReportedPresent (serve cfg acs cas composite).calls d) := by
+  obtain ⟨_, _, h⟩ := C13_returned_is_checked cfg acs cas composite
+  obtain ⟨_, hres, hcalls⟩ := h m hm
+  obtain ⟨ar, hac, _, htop, hdirs, _⟩ := C13_returned_implies_present cfg (.ok m) cas hres
+  simp only [AcReply.ok.injEq] at hac
+  subst hac
+  rw [hcalls]
+  exact ⟨htop, hdirs⟩
+
+/-- Non-vacuity: the entry is overwritten (a further, missing output file) after the first read;
+the caller still receives the first, checked message and the Action Cache was read once. -/
+example :
+    let ar : AR := ⟨100, [some (.good ⟨2, 10⟩)], [], none, none⟩
+    let ar' : AR := ⟨140, [some (.good ⟨2, 10⟩), some (.good ⟨9, 1⟩)], [], none, none⟩
+    let r := serve ⟨2, 1000, 500⟩ (fun i => if i = 0 then .ok ar else .ok ar') (scriptCas [⟨9, 1⟩] [] []) none
+    r.outcome = .result ∧ r.acReads = 1 ∧ r.message = some ar := by
+  decide
+
 /-! ### The scripted CAS of the driver satisfies the hypotheses used above -/
 
 theorem scriptCas_truthful (missing : List Dg) (blobs : List (Dg × Blob)) (faults : List (Nat × Code)) :
